@@ -47,6 +47,9 @@ def run(ch, config, res):
     world = World(ch, cfg, client_impl=config.get("client", "real"), read_size=rsz)
     srv = world.server
     srv.order_variation = True
+    srv.text_lit_variation = True
+    with ch.scope("run"):
+        refusal_first = wl.flag("refusal_first", 1, 2)
     forced_lit = None
     with ch.scope("store"):
         if strat is not None:
@@ -124,6 +127,12 @@ def run(ch, config, res):
                 return None, raw
 
             failure, raw = check_listing("op#1")
+            if failure is None and strat is None and refusal_first:
+                # a refused request in between (its text may come as a literal): what it reports is C09's business; the
+                # answers that follow must not be disturbed by it
+                with ch.scope("refused"):
+                    world.call(client, "getscript", "no-such-script")
+                res.count("refusals_in_between")
             for nm in srv.scripts:
                 cls = "plain" if nm.isalnum() and nm.islower() else "lookalike"
                 enc = "lit" if (b"{%d}" % len(nm)) in raw else "q"
